@@ -31,13 +31,15 @@ TRUSTED = [
 ASSUME = [
     '"usable text codec": codecs.lookup succeeds, the codec is a text encoding, and decoding plain ASCII with it raises nothing but '
     'UnicodeDecodeError (punycode and undefined are text codecs of CPython that fail this and are classified unknown)',
-    '"the ASCII repertoire" is the tool\'s own list of 105 bytes (NUL EOT BEL BS HT LF VT FF CR ESC, 0x20-0x7E); names whose verdict '
+    '"the ASCII repertoire" is the list of 105 bytes (NUL EOT BEL BS HT LF VT FF CR ESC, 0x20-0x7E) the tool uses at the pinned commit, kept as a constant of the harness; names whose verdict '
     'differs on all 128 ASCII bytes are listed in the evidence notes',
     '"Python ships a codec": codecs.lookup in a pristine interpreter (python -I), before install_extra_encodings()',
     'iconv loops: theorems hold under the iconv(3) contract of Spec/Iconv.v; every libc call observed at run time is checked against it',
 ]
 
 EXTRA = ['KOI8-RU', 'KOI8-T', 'VISCII', 'GEORGIAN-PS', 'EUC-TW']
+# the reading of "the ASCII repertoire" stated in ASSUME, pinned here so that an edit of the tool's own list is judged against it
+REPERTOIRE = bytes([0, 4, 7, 8, 9, 10, 11, 12, 13, 27] + list(range(32, 127)))
 SIZE_MAX = ctypes.c_size_t(-1).value
 STATEFUL = ('UTF-7', 'ISO-2022-JP')      # converters with shift state among those exercised
 
@@ -763,7 +765,7 @@ def oracle_classification(payload):
     if cls == 'unparsed':
         return [], line
     tname, is_text = tool_lookup(name)
-    asc = ascii_outcome(name, E._interesting_ascii_bytes)
+    asc = ascii_outcome(name, REPERTOIRE)
     usable = tname is not None and is_text and asc not in ('other', 'notstr')
     low = name.lower() if name.isascii() else None
     norm = None
@@ -985,7 +987,7 @@ def check(ctx):
     req = []
     for n in names:
         tn, _ = tool_lookup(n)
-        asc = ascii_outcome(n, E._interesting_ascii_bytes)
+        asc = ascii_outcome(n, REPERTOIRE)
         req.append(('classify %s %s %s %s %s' % (enc_str(n), enc_str(n.lower()), enc_str(n.upper()), '-' if tn is None else enc_str(tn), asc), n))
     res = common.compare_parallel('harness.c20', 'impl_classify', req)
     ctx.evaluations += len(res)
@@ -1009,7 +1011,7 @@ def check(ctx):
         tn, tx = tool_lookup(n)
         if tn is not None and tx and line.startswith('unknown'):
             text_but_unknown.append(n)
-        a105, a128 = ascii_outcome(n, E._interesting_ascii_bytes), ascii_outcome(n, full)
+        a105, a128 = ascii_outcome(n, REPERTOIRE), ascii_outcome(n, full)
         if (a105 == 'same') != (a128 == 'same'):
             ascii_differs.append(n)
     ctx.notes.append('text codecs of CPython classified unknown because decoding ASCII raises a non-decode error: %s' % sorted(set(x.lower() for x in text_but_unknown)))
